@@ -89,6 +89,13 @@ impl ByteCompiler<'_> {
 
                 let no_throw = self.jump();
                 self.patch_handler(catch_handler);
+                // The catch block threw. Keep its exception in a register while the finally block
+                // runs: a try statement inside the finally block reuses the pending exception slot.
+                // (There is none when this is the empty exception of a generator `return()`.)
+                let has_exception = self.register_allocator.alloc();
+                let exception = self.register_allocator.alloc();
+                self.bytecode
+                    .emit_maybe_exception(has_exception.variable(), exception.variable());
                 self.bytecode.emit_store_true(finally_re_throw.variable());
 
                 self.patch_jump(no_throw);
@@ -102,8 +109,13 @@ impl ByteCompiler<'_> {
                 self.compile_finally_stmt(f);
                 self.register_allocator.dealloc(error);
                 let do_not_throw_exit = self.jump_if_false(&finally_re_throw);
+                let no_exception = self.jump_if_false(&has_exception);
+                self.bytecode.emit_throw(exception.variable());
+                self.patch_jump(no_exception);
                 self.bytecode.emit_re_throw();
                 self.patch_jump(do_not_throw_exit);
+                self.register_allocator.dealloc(has_exception);
+                self.register_allocator.dealloc(exception);
                 self.pop_try_with_finally_control_info(finally_start);
                 self.register_allocator.dealloc(finally_re_throw);
                 self.register_allocator.dealloc(finally_jump_index);
